@@ -261,20 +261,14 @@ def encode(input, errors="strict", encoding=None):
 
 
 def _bytes2int(bytes):
-    # Helper: convert an 8 bit string into an ``int``.
-    i = 0
-    for byte in bytes:
-        i = (i << 8) + ord(byte)
-    return i
+    # Helper: convert a byte string into an ``int``
+    # (a leading 1 keeps leading zero bytes).
+    return int.from_bytes(b"\x01" + bytes, "big")
 
 
 def _int2bytes(i):
-    # Helper: convert an ``int`` into an 8-bit string.
-    v = []
-    while i:
-        v.insert(0, chr(i & 0xFF))
-        i >>= 8
-    return "".join(v)
+    # Helper: convert an ``int`` made by ``_bytes2int`` into the byte string.
+    return i.to_bytes((i.bit_length() + 7) // 8, "big")[1:]
 
 
 class IncrementalDecoder(codecs.IncrementalDecoder):
@@ -282,6 +276,7 @@ class IncrementalDecoder(codecs.IncrementalDecoder):
         self.decoder = None
         self.encoding = encoding
         self.force = force
+        self._givenencoding = encoding
         codecs.IncrementalDecoder.__init__(self, errors)
         # Store ``errors`` somewhere else,
         # because we have to hide it in a property
@@ -294,7 +289,7 @@ class IncrementalDecoder(codecs.IncrementalDecoder):
             result = self.decode(part, False)
             if result:
                 yield result
-        result = self.decode("", True)
+        result = self.decode(b"", True)
         if result:
             yield result
 
@@ -340,6 +335,8 @@ class IncrementalDecoder(codecs.IncrementalDecoder):
     def reset(self):
         codecs.IncrementalDecoder.reset(self)
         self.decoder = None
+        # an encoding detected in the last document is forgotten
+        self.encoding = self._givenencoding
         self.buffer = b""
         self.headerfixed = False
 
@@ -365,14 +362,14 @@ class IncrementalDecoder(codecs.IncrementalDecoder):
             )
         else:
             state = (self.encoding, self.buffer, self.headerfixed, False, None)
-        return ("", _bytes2int(marshal.dumps(state)))
+        return (b"", _bytes2int(marshal.dumps(state)))
 
     def setstate(self, state):
-        state = _int2bytes(marshal.loads(state[1]))  # ignore buffered input
+        state = marshal.loads(_int2bytes(state[1]))  # ignore buffered input
         self.encoding = state[0]
         self.buffer = state[1]
         self.headerfixed = state[2]
-        if state[3] is not None:
+        if state[3]:
             self.decoder = codecs.getincrementaldecoder(self.encoding)(self._errors)
             self.decoder.setstate(state[4])
         else:
@@ -383,6 +380,7 @@ class IncrementalEncoder(codecs.IncrementalEncoder):
     def __init__(self, errors="strict", encoding=None):
         self.encoder = None
         self.encoding = encoding
+        self._givenencoding = encoding
         codecs.IncrementalEncoder.__init__(self, errors)
         # Store ``errors`` somewhere else,
         # because we have to hide it in a property
@@ -434,6 +432,8 @@ class IncrementalEncoder(codecs.IncrementalEncoder):
     def reset(self):
         codecs.IncrementalEncoder.reset(self)
         self.encoder = None
+        # an encoding detected in the last document is forgotten
+        self.encoding = self._givenencoding
         self.buffer = ""
 
     def _geterrors(self):
@@ -455,12 +455,12 @@ class IncrementalEncoder(codecs.IncrementalEncoder):
         return _bytes2int(marshal.dumps(state))
 
     def setstate(self, state):
-        state = _int2bytes(marshal.loads(state))
+        state = marshal.loads(_int2bytes(state))
         self.encoding = state[0]
         self.buffer = state[1]
-        if state[2] is not None:
+        if state[2]:
             self.encoder = codecs.getincrementalencoder(self.encoding)(self._errors)
-            self.encoder.setstate(state[4])
+            self.encoder.setstate(state[3])
         else:
             self.encoder = None
 
@@ -470,6 +470,7 @@ class StreamWriter(codecs.StreamWriter):
         codecs.StreamWriter.__init__(self, stream, errors)
         self.streamwriter = None
         self.encoding = encoding
+        self._givenencoding = encoding
         self._errors = errors
         self.buffer = ""
 
@@ -509,6 +510,13 @@ class StreamWriter(codecs.StreamWriter):
         self.streamwriter.errors = errors
         return (self.streamwriter.encode(input), li)
 
+    def reset(self):
+        codecs.StreamWriter.reset(self)
+        # a new document begins (e.g. after seek(0))
+        self.streamwriter = None
+        self.encoding = self._givenencoding
+        self.buffer = ""
+
     def _geterrors(self):
         return self._errors
 
@@ -531,6 +539,7 @@ class StreamReader(codecs.StreamReader):
         codecs.StreamReader.__init__(self, stream, errors)
         self.streamreader = None
         self.encoding = encoding
+        self._givenencoding = encoding
         self.force = force
         self._errors = errors
 
@@ -561,6 +570,12 @@ class StreamReader(codecs.StreamReader):
             return ("", 0)  # we will create a new streamreader on the next call
         self.streamreader.errors = errors
         return (self.streamreader.decode(input), len(input))
+
+    def reset(self):
+        codecs.StreamReader.reset(self)
+        # a new document begins (e.g. after seek(0))
+        self.streamreader = None
+        self.encoding = self._givenencoding
 
     def _geterrors(self):
         return self._errors
